@@ -292,6 +292,10 @@ def gen_synth_stage_spec(rng) -> list[dict]:
         nb, na = rng.choice([(1, 0), (0, 1), (1, 1), (1, 1), (2, 0), (0, 2), (2, 1), (1, 2)])
         spec[par]["synth"] = [{"owner": "B", "tasks": [rng.choice("SSSSSTFKCX")]} for _ in range(nb)] + \
                              [{"owner": "A", "tasks": [rng.choice("SSSSSTFKCX")]} for _ in range(na)]
+        if nb == 2 and rng.random() < 0.45:                      # a chain: the second child has the first as requisite
+            spec[par]["synth"][1]["req"] = 0
+        if na == 2 and rng.random() < 0.45:
+            spec[par]["synth"][nb + 1]["req"] = nb
     return spec
 
 
@@ -315,6 +319,9 @@ FIXED_SYNTH_STAGE = [
      "reorder": 0.3, "cancel": {}, "pick_seed": 3},
     {"kind": "real", "synthetic_stages": True, "wfs": [[{"tasks": ["S", "S"], "synth": [{"owner": "B", "tasks": ["S"]}, {"owner": "A", "tasks": ["S"]}]}]],
      "reorder": 0.3, "cancel": {"0": 9}, "pick_seed": 4},
+    {"kind": "real", "synthetic_stages": True, "wfs": [[{"tasks": ["S"], "synth": [{"owner": "B", "tasks": ["S"]}, {"owner": "B", "tasks": ["F"], "req": 0},
+                                                                                     {"owner": "A", "tasks": ["S"]}, {"owner": "A", "tasks": ["T"], "req": 2}]}]],
+     "reorder": 0.3, "cancel": {}, "pick_seed": 5},
 ]
 
 
